@@ -528,7 +528,11 @@ def emit_lemma(name, dag, pairs, hyps=(), extra_requires=(), vars_order=None):
             closing.append(f"assert(dlt{k} == {terms});")
             for hi, wl, wr, cp in hl:
                 closing.append(f"lemma_cong_zero_mul(({cp.txt()}), ({wl[1]}), ({wr[1]}), q);")
-            closing.append("lemma_sum_zero_mod{}({}, q);".format(len(hl), ", ".join(f"(({cp.txt()}) * (({wl[1]}) - ({wr[1]})))" for hi, wl, wr, cp in hl)))
+            tl = [f"(({cp.txt()}) * (({wl[1]}) - ({wr[1]})))" for hi, wl, wr, cp in hl]
+            acc = tl[0]
+            for t in tl[1:]:
+                closing.append(f"lemma_sum_zero_mod2({acc}, {t}, q);")
+                acc = acc + " + " + t
             closing.append(f"lemma_cong_from_diff({nc[1]}, {ns[1]}, q);")
             closing.append(f"assert({nc[0]} == {ns[0]});")
     params = set()
@@ -589,16 +593,49 @@ def path_witness(dag, c, s, path, tries=16, seed=0):
                 env[v] = pr.eval(env, Q)
             elif pl.eval(env, Q) != pr.eval(env, Q):
                 ok = False
-        # inverse hypotheses  a * inv == 1 : solve for inv when a does not mention it
-        for l, r in hyps:
-            n = dag.nodes[l]
-            if n[0] == 'mul' and dag.nodes[n[2]][0] == 'v':
-                a = dag.poly(n[1]).eval(env, Q)
-                if a == 0:
+        # hypotheses from inverse() callees are linear in the fresh variables: solve for them mod Q
+        if hyps and ok:
+            prefixes = [n for n in fresh]
+            unk = sorted(v for v in vs if any(v == p or v.startswith(p + '__') for p in prefixes))
+            hp = [dag.poly(l) - dag.poly(r) for l, r in hyps]
+            if unk:
+                base = dict(env)
+                for u_ in unk:
+                    base[u_] = 0
+                rhs = [(-h.eval(base, Q)) % Q for h in hp]
+                M = []
+                for h, b0 in zip(hp, rhs):
+                    row = []
+                    for u_ in unk:
+                        e2 = dict(base); e2[u_] = 1
+                        row.append((h.eval(e2, Q) + b0) % Q)
+                    M.append(row + [b0])
+                # gaussian elimination mod Q
+                r_ = 0
+                piv = []
+                for c_ in range(len(unk)):
+                    pr = next((i for i in range(r_, len(M)) if M[i][c_] % Q), None)
+                    if pr is None:
+                        continue
+                    M[r_], M[pr] = M[pr], M[r_]
+                    inv = pow(M[r_][c_], Q - 2, Q)
+                    M[r_] = [x * inv % Q for x in M[r_]]
+                    for i in range(len(M)):
+                        if i != r_ and M[i][c_]:
+                            f = M[i][c_]
+                            M[i] = [(x - f * y) % Q for x, y in zip(M[i], M[r_])]
+                    piv.append((r_, c_))
+                    r_ += 1
+                if any(all(x == 0 for x in row[:-1]) and row[-1] for row in M):
                     ok = False
                 else:
-                    env[dag.nodes[n[2]][1]] = pow(a, Q - 2, Q)
-            elif dag.poly(l).eval(env, Q) != dag.poly(r).eval(env, Q):
+                    for rr, c_ in piv:
+                        env[unk[c_]] = M[rr][-1]
+                    for u_ in unk:
+                        env.setdefault(u_, 0)
+                        if u_ not in [unk[c_] for _, c_ in piv]:
+                            env[u_] = 0
+            if ok and any(h.eval(env, Q) for h in hp):
                 ok = False
         if ok and pc.eval(env, Q) != ps.eval(env, Q):
             return env
